@@ -244,9 +244,11 @@ func c07Check(c c07Case, rec *evid.Recorder) *Fail {
 		r := jsrun.Run(src)
 		refRun = &r
 	}
+	var outputs []v8Output
 	for _, cfg := range c07Cfgs {
 		rec.Eval()
 		out := compile(p, cfg).Code
+		outputs = append(outputs, v8Output{cfg.String(), out})
 		got, err := litValues(out)
 		if err != nil {
 			if errors.Is(err, errRefLimit) {
@@ -273,6 +275,11 @@ func c07Check(c c07Case, rec *evid.Recorder) *Fail {
 			if c07NonTrivial(l.Src) {
 				rec.NonTrivial(cfg.String() + "|" + l.Src)
 			}
+		}
+	}
+	if refRun != nil && refRun.Completion == "normal" {
+		if f := v8Pass(src, *refRun, outputs, rec); f != nil {
+			return f
 		}
 	}
 	rec.Sample(len(c.Lits), map[string]interface{}{"literals": litSrcs(c.Lits[:min(len(c.Lits), 12)])})
